@@ -504,7 +504,10 @@ func NewEnclosedEnvironment(outer *Environment) *Environment {
 // set the function's name in that environment to avoid deep search for it.
 func NewFunctionEnvironment(fn Function, current *Environment) (*Environment, bool) {
 	parent := current
-	sameFunction := (current.cacheKey == fn.CacheKey)
+	// Same function means the same closure: same text and same defining environment. Two closures made by
+	// one factory (mk=func(a){func(f){...}}) share their text but not their captured variables: when one calls
+	// the other, the callee must see its own captures and not the caller's.
+	sameFunction := (current.cacheKey == fn.CacheKey) && current.function != nil && current.function.Env == fn.Env
 	if !sameFunction {
 		parent = fn.Env
 	}
